@@ -25,7 +25,7 @@ PLANS = {
         "assumptions": ["legality oracle written from the property text (independent of library helpers)",
                         "g++ ASan/UBSan runtimes; library assert()s compiled in (asan, fast builds)"],
         "trusted_base": ["harness/circ.hpp legality oracle", "g++ 12 sanitizer runtimes"],
-        "runs": flow("c01", C01_PROFILES, "asan", 750, 4000) + flow("c01", C01_PROFILES, "fast", 0, 25000),
+        "runs": flow("c01", C01_PROFILES, "asan", 4000, 12000) + flow("c01", C01_PROFILES, "fast", 0, 60000),
     },
     "C02": {
         "level": "exploration",
@@ -34,10 +34,10 @@ PLANS = {
                 "cell; distinct = feature signature x outcome x callback count. Optimiser layer: random pass sequences on a "
                 "DetailedPlacer. Data-structure layer: exhaustive BFS over swap/insert sequences on small DetailedPlacement instances",
         "assumptions": ["legality oracle independent of the library", "tall cells compared with the first callback state and the legalize-only copy"],
-        "runs": flow("c02.api", C01_PROFILES, "asan", 250, 2500) + flow("c02.api", C01_PROFILES, "fast", 0, 10000)
-                + [R("h_dp", "asan", "c02.opt", 1500, 15000), R("h_dp", "fast", "c02.opt", 0, 60000),
+        "runs": flow("c02.api", C01_PROFILES, "asan", 1500, 6000) + flow("c02.api", C01_PROFILES, "fast", 0, 10000)
+                + [R("h_dp", "asan", "c02.opt", 6000, 30000), R("h_dp", "fast", "c02.opt", 0, 60000),
                    R("h_dp", "fast", "c02.ds.closure", 1080, 1080, exhaustive=True),
-                   R("h_dp", "asan", "c02.ds.walk", 4000, 100000)],
+                   R("h_dp", "asan", "c02.ds.walk", 20000, 200000)],
     },
     "C03": {
         "level": "exploration",
@@ -46,8 +46,8 @@ PLANS = {
                 "index, infeasible legalization, rejected parameters); non-trivial = circuit has fixed cells and the stage ran; "
                 "distinct = feature signature x outcome x number of fixed cells",
         "assumptions": ["all Circuit data members are public and compared field by field"],
-        "runs": flow("c03.flow", ["general", "manyfixed", "dense", "obstruction"], "asan", 300, 4000)
-                + [R("h_flow", "asan", "c03.global", 400, 4000)]
+        "runs": flow("c03.flow", ["general", "manyfixed", "dense", "obstruction"], "asan", 2000, 8000)
+                + [R("h_flow", "asan", "c03.global", 1500, 6000)]
                 + flow("c03.flow", ["general", "manyfixed", "dense", "obstruction"], "fast", 0, 15000)
                 + [R("h_flow", "fast", "c03.global", 0, 15000)],
     },
@@ -57,7 +57,7 @@ PLANS = {
                 "callback and on return of placeDetailed; non-trivial = polarised movable cells present and the call returned; "
                 "distinct = feature signature x outcome",
         "assumptions": ["rows at one y share one orientation (C01 domain)"],
-        "runs": flow("c04", C01_PROFILES, "asan", 250, 2500) + flow("c04", ["polarity", "multirow", "general"], "fast", 0, 20000),
+        "runs": flow("c04", C01_PROFILES, "asan", 2000, 8000) + flow("c04", ["polarity", "multirow", "general"], "fast", 0, 20000),
     },
     "C05": {
         "level": "exploration",
@@ -65,9 +65,9 @@ PLANS = {
                 "must be non-increasing and end <= legalize-only copy; non-trivial = wirelength strictly decreased at least once; "
                 "distinct = feature signature x outcome x callback count",
         "assumptions": ["a rise is attributed to the known finding only if the frozen-orientation wirelength did not rise and a polarised cell with pins changed orientation"],
-        "runs": flow("c05", ["general", "nets", "polarity", "dense", "multirow", "rowhigh-any"], "asan", 300, 3000)
+        "runs": flow("c05", ["general", "nets", "polarity", "dense", "multirow", "rowhigh-any"], "asan", 2000, 8000)
                 + flow("c05", ["general", "nets", "polarity", "dense", "multirow", "rowhigh-any"], "fast", 0, 12000)
-                + [R("h_dp", "asan", "c05.opt", 1500, 15000), R("h_dp", "fast", "c05.opt", 0, 60000)],
+                + [R("h_dp", "asan", "c05.opt", 6000, 30000), R("h_dp", "fast", "c05.opt", 0, 60000)],
     },
     "C07": {
         "level": "exploration",
@@ -86,7 +86,7 @@ PLANS = {
                 "after every ended call all setters must be accepted on a copy and a further placement call must end normally; "
                 "non-trivial = K > 0; distinct = stage x K x outcome",
         "assumptions": ["fault points are the callback invocations (the only user code run inside a placement call) plus infeasible legalization and rejected parameters"],
-        "runs": [R("h_flow", "asan", "c10.enum", 160, 3000), R("h_flow", "fast", "c10.enum", 0, 6000)],
+        "runs": [R("h_flow", "asan", "c10.enum", 1500, 6000), R("h_flow", "fast", "c10.enum", 0, 6000)],
     },
     "C11": {
         "level": "exploration",
@@ -94,8 +94,8 @@ PLANS = {
                 "legalized again: no x/y may change; non-trivial = >= 2 movable cells re-legalized; distinct = feature signature x "
                 "orderingWidth region (inside/outside [0,1]) x source",
         "assumptions": ["|v| < 2^20 so that the float ordering key is exact"],
-        "runs": flow("c11.relegalize", ["general", "rowhigh", "obstruction", "polarity", "dense"], "asan", 400, 6000)
-                + [R("h_flow", "asan", "c11.constructed", 1500, 20000)]
+        "runs": flow("c11.relegalize", ["general", "rowhigh", "obstruction", "polarity", "dense"], "asan", 3000, 10000)
+                + [R("h_flow", "asan", "c11.constructed", 10000, 40000)]
                 + flow("c11.relegalize", ["general", "rowhigh", "obstruction", "polarity", "dense"], "fast", 0, 20000)
                 + [R("h_flow", "fast", "c11.constructed", 0, 60000)],
     },
@@ -108,9 +108,9 @@ PLANS = {
                 "each; (c) DetailedPlacer::value() vs frozen-orientation reference after every optimiser pass; non-trivial = pins "
                 "checked / updates applied / cells moved; distinct = orientation set, axis, mode, sizes",
         "assumptions": ["reference pin transform table in harness/circ.hpp (DEF semantics)"],
-        "runs": [R("h_hpwl", "asan", "c09.hpwl", 20000, 200000), R("h_hpwl", "asan", "c09.incr", 10000, 100000),
+        "runs": [R("h_hpwl", "asan", "c09.hpwl", 100000, 400000), R("h_hpwl", "asan", "c09.incr", 50000, 200000),
                  R("h_hpwl", "fast", "c09.hpwl", 0, 1000000), R("h_hpwl", "fast", "c09.incr", 0, 400000),
-                 R("h_dp", "asan", "c09.opt", 1000, 10000), R("h_dp", "fast", "c09.opt", 0, 40000)],
+                 R("h_dp", "asan", "c09.opt", 5000, 20000), R("h_dp", "fast", "c09.opt", 0, 40000)],
     },
     "C12": {
         "level": "exploration",
@@ -122,7 +122,7 @@ PLANS = {
                 "size/fill bucket",
         "assumptions": ["isotonic-L1 DP over the candidate set is exact (cross-checked against brute force for segments <= 300)"],
         "runs": [R("h_row", "fast", "c12.exhaustive7", 588, 588, exhaustive=True),
-                 R("h_row", "asan", "c12.random", 20000, 200000), R("h_row", "asan", "c12.big", 5000, 100000),
+                 R("h_row", "asan", "c12.random", 100000, 400000), R("h_row", "asan", "c12.big", 30000, 200000),
                  R("h_row", "fast", "c12.random", 0, 1000000), R("h_row", "fast", "c12.big", 0, 400000)],
     },
     "C13": {
@@ -134,7 +134,7 @@ PLANS = {
                 "enumeration on tiny instances; toAssignment = arg-max per source; float->fixed-point monotone with bounded error; "
                 "non-trivial = >= 2 sources and >= 2 sinks; distinct = cost type, sizes, cost range, balance",
         "assumptions": ["lemon NetworkSimplex is exact (cross-checked by brute force for tiny sizes)", "integer costs below 2^29/nbSinks"],
-        "runs": [R("h_transp", "asan", "c13.random", 20000, 200000), R("h_transp", "fast", "c13.exhaustive2", 1521, 1521, exhaustive=True),
+        "runs": [R("h_transp", "asan", "c13.random", 100000, 400000), R("h_transp", "fast", "c13.exhaustive2", 1521, 1521, exhaustive=True),
                  R("h_transp", "fast", "c13.exhaustive3", 0, 1521, exhaustive=True), R("h_transp", "fast", "c13.random", 0, 600000)],
     },
     "C14": {
@@ -145,7 +145,7 @@ PLANS = {
                 "equality with lemon NetworkSimplex; assign(): length, positive-demand sinks, unsplit sources follow the plan; ASan "
                 "guards the result vector; non-trivial = >= 2 sources and >= 2 sinks; distinct = sizes, magnitude buckets, zeros, balance",
         "assumptions": ["lemon NetworkSimplex is exact"],
-        "runs": [R("h_t1d", "asan", "c14.random", 15000, 150000), R("h_t1d", "asan", "c14.zeros", 15000, 150000),
+        "runs": [R("h_t1d", "asan", "c14.random", 50000, 300000), R("h_t1d", "asan", "c14.zeros", 50000, 300000),
                  R("h_t1d", "asan", "c14.exhaustive", 1521, 1521, exhaustive=True),
                  R("h_t1d", "fast", "c14.random", 0, 500000), R("h_t1d", "fast", "c14.zeros", 0, 500000)],
     },
@@ -158,7 +158,7 @@ PLANS = {
                 "all four fixed x obstruction flag combinations, movable cells and extra obstacles; non-trivial = some obstacle "
                 "overlaps the row; distinct = sizes, obstacle counts, flag combinations, number of segments",
         "assumptions": ["well-formed rectangles only (max >= min)", "touching returned segments are merged before comparison: the property asks for disjoint covering segments, not maximal ones"],
-        "runs": [R("h_rows", "asan", "c15.random", 60000, 600000), R("h_rows", "asan", "c15.computeRows", 6000, 60000),
+        "runs": [R("h_rows", "asan", "c15.random", 300000, 1200000), R("h_rows", "asan", "c15.computeRows", 30000, 120000),
                  R("h_rows", "fast", "c15.exhaustive", 7570, 7570, exhaustive=True),
                  R("h_rows", "fast", "c15.random", 0, 4000000), R("h_rows", "fast", "c15.computeRows", 0, 300000)],
     },
@@ -170,8 +170,8 @@ PLANS = {
                 "monotonicity, density bounds against an independent available-area computation, brute-force max over intersecting "
                 "congested regions; non-trivial = some cell widened / expanded; distinct = branch taken x margin/cap x circuit features",
         "assumptions": ["tolerances: one max cell height of carry (to-density), one area unit per movable cell of float->int truncation (by-factor), float rounding 1.3e-7 relative on w*f"],
-        "runs": [R("h_expand", "asan", "c18.density", 10000, 100000), R("h_expand", "asan", "c18.factor", 10000, 100000),
-                 R("h_expand", "asan", "c18.congestion", 10000, 100000),
+        "runs": [R("h_expand", "asan", "c18.density", 50000, 200000), R("h_expand", "asan", "c18.factor", 50000, 200000),
+                 R("h_expand", "asan", "c18.congestion", 50000, 200000),
                  R("h_expand", "fast", "c18.density", 0, 500000), R("h_expand", "fast", "c18.factor", 0, 500000), R("h_expand", "fast", "c18.congestion", 0, 300000)],
     },
     "C16": {
@@ -197,9 +197,9 @@ PLANS = {
                 "include 0.125..0.5 and 1.5, 2.5; non-trivial = some weight (or scaled weight) is not an integer; distinct = API, net "
                 "model, factor, size",
         "assumptions": ["CG tolerance 1e-8 / 5000 iterations for tolerance comparisons", "float operations scale exactly by powers of two (no under/overflow in the magnitudes used)"],
-        "runs": [R("h_weights", "asan", "c17.lsq.star", 4000, 40000), R("h_weights", "asan", "c17.lsq.twopin", 4000, 40000),
-                 R("h_weights", "asan", "c17.pow2.model", 4000, 40000), R("h_weights", "asan", "c17.scale.model", 4000, 40000),
-                 R("h_weights", "asan", "c17.pow2.global", 400, 4000),
+        "runs": [R("h_weights", "asan", "c17.lsq.star", 16000, 80000), R("h_weights", "asan", "c17.lsq.twopin", 16000, 80000),
+                 R("h_weights", "asan", "c17.pow2.model", 16000, 80000), R("h_weights", "asan", "c17.scale.model", 16000, 80000),
+                 R("h_weights", "asan", "c17.pow2.global", 1600, 8000),
                  R("h_weights", "fast", "c17.lsq.star", 0, 200000), R("h_weights", "fast", "c17.lsq.twopin", 0, 200000),
                  R("h_weights", "fast", "c17.pow2.model", 0, 200000), R("h_weights", "fast", "c17.scale.model", 0, 200000),
                  R("h_weights", "fast", "c17.pow2.global", 0, 20000)],
@@ -234,7 +234,7 @@ PLANS = {
         "assumptions": ["stand-ins replace pybind11 and the compiled module (pybind11 is not installed): the binding half validates the registration calls, not pybind11 itself",
                         "CPython 3 runs the real reader"],
         "trusted_base": ["harness/pybind_stub/pybind11/pybind11.h", "harness/py_stub/coloquinte_pybind.py", "tools/rt_check.py", "CPython"],
-        "runs": [R("h_export", "asan", "c20.roundtrip", 600, 20000), R("h_bind", "asan", "c20.bindings", 256, 256, exhaustive=True)],
+        "runs": [R("h_export", "asan", "c20.roundtrip", 4000, 40000), R("h_bind", "asan", "c20.bindings", 256, 256, exhaustive=True)],
     },
     "C06": {
         "level": "exploration",
@@ -263,8 +263,8 @@ PLANS = {
         "assumptions": ["the lower model address is the x model (xtopo_ is declared before ytopo_ in GlobalPlacer): only used to label the observed orders",
                         "schedule coverage = completion orders of the two tasks (both forced), not every instruction interleaving; TSan covers the executions produced"],
         "require_counters": ["c08.sched.x_solve_finished_first", "c08.sched.y_solve_finished_first"],
-        "runs": [R("h_global", "asan", "c08.pure", 300, 3000), R("h_global", "asan", "c08.sched", 64, 800),
-                 R("h_global", "tsan", "c08.sched.light", 48, 600), R("h_global", "tsan", "c08.pure", 32, 300),
+        "runs": [R("h_global", "asan", "c08.pure", 600, 3000), R("h_global", "asan", "c08.sched", 160, 800),
+                 R("h_global", "tsan", "c08.sched.light", 96, 600), R("h_global", "tsan", "c08.pure", 64, 300),
                  R("h_global", "fast", "c08.pure", 0, 10000), R("h_global", "fast", "c08.sched", 0, 1500)],
     },
 }
